@@ -42,6 +42,8 @@ for nid in ids:
                 narrowed.add(prop)
         if narrowed and os.environ.get('NEUTRAL_ALL') is None:
             props = sorted(narrowed | ({'C19'} & set(props)))
+        if os.environ.get('NEUTRAL_PROPS'):
+            props = [p for p in props if p in os.environ['NEUTRAL_PROPS'].split(',')]
         out = {}
         try:
             for p in props:
